@@ -5,6 +5,10 @@ from .. import monitors as M, largefiles
 
 def run(ctx):
     scs = _scn.standard_pool(ctx, ctx.scale(70, 1200), ctx.scale(45, 600))
+    # a pattern anchored at the root says nothing about entries of the same name further down
+    for pats in (["/tmp"], ["/Sidecar.txt"], ["/tmp/", "/A/Sidecar.txt"]):
+        scs.insert(0, {"profile": "c02-anchored", "root": "root", "tree": {"tmp/x.bin": "x", "Clips/tmp/y.bin": "y", "Sidecar.txt": "s", "A/Sidecar.txt": "as", "A/B/Sidecar.txt": "abs", "A/tmp/": None},
+                       "ops": [{"op": "create", "at": "", "h": ["md5"], "now": "2026-03-01 12:00:01", "i": pats}, {"op": "verify", "at": ""}, {"op": "create", "at": "", "h": ["sha1"], "now": "2026-03-01 12:00:02"}]})
     # one -sf run that names files with the same name (relative to their own history) in different histories
     scs.insert(0, {"profile": "c02-sf-twins", "root": "card", "tree": {"clip.mov": "root clip", "A/clip.mov": "a clip", "B/clip.mov": "b clip", "B/sub/clip.mov": "deep"},
                    "ops": [{"op": "create", "at": "A", "h": ["md5"], "now": "2026-03-01 12:00:01"}, {"op": "create", "at": "B", "h": ["md5"], "now": "2026-03-01 12:00:02"},
